@@ -32,7 +32,7 @@ ASSUMPTIONS = ["the driver paths are taken as given (their structure is C15, the
                "copula drivers: 2-d Levy-copula chains on small fixed grids (20% of the worlds), coefficients Constant (m x 2), "
                "diag(x), sigma(t)*x; 3-d drivers and the Libor drift with a copula driver are not covered"]
 TIERS = {
-    "quick": {"worlds": 300, "wall": 500, "shrink_budget": 40,
+    "quick": {"worlds": 4000, "wall": 500, "shrink_budget": 40,
               "required_probes": ["c16.single_path_checked", "c16.coupled_path_checked", "c16.diag_coefficient",
                                   "c16.maxstep_active", "c16.level_ge_2", "c16.fixing_inside_the_horizon",
                                   "c16.state_dependent_sde_drift", "c16.nd_single_path_checked",
